@@ -106,6 +106,7 @@ let functions : (string * (val0 -> val0)) list = [
   ("oraclegen", oraclegen_run);
   ("reggen", reggen_run);
   ("sigprune", prune_run);
+  ("votesh", votesh_run);
 ]
 
 (* monitors: (property, suite) -> case -> implementation output -> list of violations *)
@@ -115,6 +116,7 @@ let monitors : ((string * string) * (val0 -> val0 -> val0)) list = [
   (("C10", "hub"), mon_C10);
   (("C12", "hub"), mon_C12);
   (("C13", "hub"), mon_C13);
+  (("C13", "votesh"), mon_C13_votes);
   (("C11", "hub"), mon_C11);
   (("C19", "hub"), mon_C19);
   (("C02", "votes"), mon_C02);
